@@ -3,6 +3,7 @@
 package router
 
 import (
+	"time"
 	"crypto/ed25519"
 	"net/netip"
 
@@ -51,7 +52,18 @@ type vfTok8 struct {
 	val  any
 }
 
+// vfPlain8: the interleaved second announcement of the re-entrancy scenario is a fixed, plain
+// one (its content is not the subject; keeps the path count down)
+var vfPlain8 bool
+
 func vfCborUnmarshal8(data []byte, v any) error {
+	if vfPlain8 {
+		if dst, ok := v.(*AnnouncePingMsg); ok {
+			dst.ReturnLabel = 77
+			dst.Expires = time.Unix(1<<33, 0)
+		}
+		return nil
+	}
 	if vf.Bool() {
 		return errVfCbor8
 	}
@@ -104,6 +116,9 @@ var (
 
 func vfAddRoute8(rt *m.RoutingTable, e m.RoutingTableEntry) (bool, error) {
 	vfAddedRoutes = append(vfAddedRoutes, e)
+	if vfPlain8 {
+		return true, nil
+	}
 	return vf.Bool(), nil
 }
 
@@ -122,15 +137,18 @@ func VfC08Announce() {
 	vfOwnIP, vfKnownIP = own, known
 	id := &m.Address{PublicAddress: m.PublicAddress{IP: own, Hash: crop.BLAKE3, Type: crop.KeyPairTypeEd25519, PublicKey: ed25519.PublicKey(vfKey8(kOwn8, 32))}, PrivateKey: ed25519.PrivateKey(vfKey8(kOwn8, 64))}
 	cfg := &config.Config{}
-	cfg.Router.Stub = vf.Bool()
-	cfg.Router.Lite = vf.Bool()
+	race := vf.Param("RACE") == 1 // re-entrancy scenario: the configuration corners are the other harnesses' subject
+	if !race {
+		cfg.Router.Stub = vf.Bool()
+		cfg.Router.Lite = vf.Bool()
+	}
 	inst := &vfRInst{id: id, cfg: cfg, builder: frame.NewFrameBuilder()}
 	inst.builder.SetFrameMargins(12, 16)
 	inst.st = state.VfNewState(&state.VfInstance{Id: id, Cfg: cfg},
 		&m.PublicAddress{IP: origin, PublicKey: ed25519.PublicKey(vfKey8(72, 32))},
 		&m.PublicAddress{IP: known, PublicKey: ed25519.PublicKey(vfKey8(kKnown8, 32))})
 	recv := &peering.VfLink{Label: m.SwitchLabel(vf.U16()), PeerIP: vfMycoAddr(), Lat: vf.U16()}
-	l2 := &peering.VfLink{Label: m.SwitchLabel(vf.U16()), PeerIP: vfMycoAddr(), IsLite: vf.Bool()}
+	l2 := &peering.VfLink{Label: m.SwitchLabel(vf.U16()), PeerIP: vfMycoAddr(), IsLite: !race && vf.Bool()}
 	l3 := &peering.VfLink{Label: m.SwitchLabel(vf.U16()), PeerIP: vfMycoAddr()}
 	vf.Assume(recv.PeerIP != l2.PeerIP && recv.PeerIP != l3.PeerIP && l2.PeerIP != l3.PeerIP)
 	vf.Assume(recv.PeerIP != own && l2.PeerIP != own && l3.PeerIP != own)
@@ -169,7 +187,34 @@ func VfC08Announce() {
 		inst.peer.VfDrop(recv)
 	}
 
+	// C09: the router handles frames on several workers; while this announcement is being handled
+	// another worker may handle a different one (a direct announcement of the known router over l3).
+	// vf.Interleave runs that second Handle to completion just before one of the lock acquisitions
+	// of the first (or never). Its recordings are set aside: every assertion below is about the
+	// FIRST announcement and must hold whatever ran in between (the handler must be re-entrant).
+	if race {
+		f2, err2 := inst.builder.NewFrameV1(l3.PeerIP, dst, frame.RouterHopPingDeprecated, nil, vf.Bytes(8), nil)
+		if err2 != nil {
+			vf.Stop()
+		}
+		vf.Havoc(f2.AuthData())
+		f2.SetRecvLink(l3)
+		vf.Interleave(func() {
+			sa, si, st, sat := vfAddedRoutes, vfInfoFor, vfTokens8, vfAttached
+			sv, ss, sd := vf.CtxVerifies, vf.CtxSigns, vfDepth
+			sl2s, sl2p, srs, srp := l2.Sent, l2.Prio, recv.Sent, recv.Prio
+			vfPlain8 = true
+			_ = h.Handle(vfW, f2, &PingHeader{}, f2.MessageData())
+			vfPlain8 = false
+			vfAddedRoutes, vfInfoFor, vfTokens8, vfAttached = sa, si, st, sat
+			vf.CtxVerifies, vf.CtxSigns, vfDepth = sv, ss, sd
+			l2.Sent, l2.Prio, recv.Sent, recv.Prio = sl2s, sl2p, srs, srp
+			vf.Reach("interleaved")
+		})
+	}
+
 	err = h.Handle(vfW, f, &PingHeader{}, f.MessageData())
+	vf.Interleave(nil)
 
 	if closedMeanwhile {
 		// nothing removes a route added now: direct-peer routes never expire and the removal for
